@@ -192,7 +192,7 @@ theorem rowOk_sound (r : OpRow) (h : rowOk r = true) (hf : r.fillFirst = false) 
             cases heq
             simp only [beq_iff_eq] at h
             subst h
-            exact fmax_min_int _ _ n hbd.1
+            exact fmax_min_int b sg _ n hbd.1 hx
           · simp at *
           · simp at h
         · rw [hdt] at h
@@ -201,7 +201,7 @@ theorem rowOk_sound (r : OpRow) (h : rowOk r = true) (hf : r.fillFirst = false) 
             cases heq
             simp only [beq_iff_eq] at h
             subst h
-            exact fmin_max_int _ _ n hbd.2
+            exact fmin_max_int b sg _ n hbd.2 hx
           · simp at *
           · simp at h
         · simp at h
@@ -273,6 +273,14 @@ theorem opsTable_complete :
 
 /-- witness: the pre-fix filler of `max_union` (0) is not neutral — all-negative inputs gave 0 -/
 example : ufuncCell "fmax" (.int 32 true) (.num 0 0) (.num (-5) 0) ≠ .num (-5) 0 := by decide
+
+/-- witnesses (mixed dtypes, model change M5): the result of a ufunc is stored in the array of
+    the FIRST map's dtype — `max_intersection([int16 7, int64 65539])` is 3 (wrap-around on
+    assignment), `product_intersection([int64 -3, float64 1.5])` is -4 (truncation toward zero) -/
+example : ufuncCell "fmax" (.int 16 true) (.num 7 0) (.num 65539 0) = .num 3 0 := by decide
+example : ufuncCell "fmin" (.int 16 true) (.num 32767 0) (.num (-65526) 0) = .num 10 0 := by decide
+example : ufuncCell "multiply" (.int 64 true) (.num (-3) 0) (.num 3 1) = .num (-4) 0 := by decide
+example : ufuncCell "fmax" (.flt 64) (.num 7 0) (.num 65539 0) = .num 65539 0 := by decide
 
 /-- non-vacuity: two maps with different block orders and partially overlapping coverage -/
 example : Inv (V := Int) ⟨3, 1⟩ ⟨-1, fun x => x != -1⟩ ⟨#[4, -2, -2], #[-1, -1, 7, -1, -1, 9]⟩ ∧
